@@ -2,4 +2,5 @@ import SameVerif.Model.Bytes
 import SameVerif.Model.Combiner
 import SameVerif.Model.Header
 import SameVerif.Model.HeaderSem
+import SameVerif.Model.Spawner
 import SameVerif.Model.Message
